@@ -42,6 +42,21 @@ pub fn check_prefix(ctx: &mut Ctx, m: &[u8], cut: usize) {
             format!("{other:?}"),
         ),
     }
+    // the TryFrom entry point reports the same
+    let alt = guard(|| <Message as TryFrom<&[u8]>>::try_from(p).map(|_| ()));
+    match alt {
+        Ok(Err(StunParseError::Truncated { expected, actual })) if expected == want_expected && actual == cut => {}
+        Ok(other) => ctx.violation(
+            "C17",
+            "prefix-truncated",
+            "Message::try_from",
+            if cut < 20 { "cut<20" } else { "cut>=20" },
+            || wit(m, cut),
+            format!("Err(Truncated{{expected: {want_expected}, actual: {cut}}})"),
+            format!("{other:?}"),
+        ),
+        Err(pn) => ctx.violation("C01", "no-panic", "Message::try_from", "prefix", || wit(m, cut), "Err(Truncated)".into(), format!("panic: {} at {}", pn.msg, pn.loc)),
+    }
     // the header decoder against the full parser on the same bytes
     header_vs_parser(ctx, m, cut);
 }
